@@ -181,7 +181,7 @@ Section Good2.
     good st' /\ FR st' m' /\ (WF -> meta_canon (cells (hp st')) m' = meta_canon (cells h0) m).
   Proof.
     intros G Hm H. unfold clone_meta in H. inv_bind H. apply get_ok in H0. destruct H0 as [-> Hc].
-    destruct a as [| | | | | |old| | | |]; try discriminate.
+    destruct a as [| | | | | |old| | | | |]; try discriminate.
     rewrite (old_cell _ _ _ _ _ G Hm) in Hc.
     inv_bind H. rename a into data.
     destruct (mapM_good (clone_mval deep) (MR m) (fun kv => In kv (m_data old))
@@ -238,17 +238,26 @@ Section Good2.
     assert (F1' : forall y, t = Some y -> FR s4 y) by (intros y Hy; eapply FR_le; [exact L14|apply F1, Hy]).
     assert (F2' : forall y, s = Some y -> FR s4 y) by (intros y Hy; eapply FR_le; [exact L24|apply F2, Hy]).
     assert (F3' : FR s4 mp) by (eapply FR_le; [exact L34|exact F3]).
-    assert (Hlk : forall y, In y (links (CValue (Val (v_name old) t s (v_doc old) (v_const old) mp me))) -> FR s4 y).
+    assert (Hlk : forall y, In y (links (CValue (Val (v_name old) t s (v_doc old) (v_const old) mp me))) ->
+                            FR s4 y \/ (y < n0 /\ v_const old = Some y)).
     { intros y Hy. unfold links in Hy. simpl in Hy. rewrite !in_app_iff in Hy. simpl in Hy.
-      destruct Hy as [Hy|[Hy|[<-|[<-|[]]]]].
-      - apply F1', in_oid, Hy.
-      - apply F2', in_oid, Hy.
-      - exact F3'.
-      - exact F4. }
+      destruct Hy as [Hy|[Hy|[<-|[<-|Hy]]]].
+      - left. apply F1', in_oid, Hy.
+      - left. apply F2', in_oid, Hy.
+      - left. exact F3'.
+      - left. exact F4.
+      - right. apply in_oid in Hy. split; [apply HL, lk_v_const, Hy|exact Hy]. }
+    assert (Hn4 : n0 <= next (hp s4)) by apply (g_ext _ _ _ _ G4).
     destruct (good_alloc _ _ _ _ _ _ _ G4 H) as (G' & HF & Hx & Hcell).
-    - intros y Hy. apply Hlk, Hy.
-    - intros y Hy. apply Hlk. exact Hy.
-    - intros y Hy. left. apply Hlk, Hy.
+    - intros y Hy. destruct (Hlk y Hy) as [K|[K _]]; [apply K|lia].
+    - intros y Hy. unfold own_links in Hy. simpl in Hy. rewrite !in_app_iff in Hy. simpl in Hy.
+      destruct Hy as [Hy|[Hy|[<-|[<-|[]]]]].
+      + apply F1', in_oid, Hy.
+      + apply F2', in_oid, Hy.
+      + apply F3'.
+      + apply F4.
+    - intros y Hy. destruct (Hlk y Hy) as [K|[K1 K2]]; [left; apply K|right].
+      split; [exact K1|]. do 4 right. exists v, old. split; [exact Hc|exact K2].
     - split; [exact G'|]. split; [exact HF|]. split; [eexists; exact Hcell|].
       intros W. unfold vcanon. rewrite Hcell, Hc. simpl. f_equal.
       assert (L1' : le s1 st') by (eapply le_trans; eassumption).
